@@ -354,6 +354,65 @@ pub fn run(prop: &'static str, tier: Tier) -> ! {
         families.push(json!({"family": "nullable patterns / nullable lookaheads / zero-pattern modes, safety invariants only, iterator driven 2|x|+2 more times after the first None", "configurations": n_cfgs, "inputs": "{a,b,\\n,é,€,😀}^<=4 (thorough 5)", "start_offsets": "all", "exhaustive": true}));
     }
 
+    // C07: safety invariants along call histories (stateless enumeration through the public API)
+    if prop == "C07" {
+        use crate::histpub::{alphabet, safety_cfgs, safety_history, HOp};
+        let depth = if tier == Tier::Quick { 3 } else { 4 };
+        let cfgs = safety_cfgs();
+        let ins = inputs(&['a', 'b', 'é', '\n', '1'], 3);
+        let work: Vec<(usize, usize)> = (0..cfgs.len()).flat_map(|c| (0..ins.len()).map(move |i| (c, i))).collect();
+        let scanners: Vec<Option<scnr::Scanner>> = cfgs.iter().map(|c| bridge::catch(|| c.build_uncached()).ok().and_then(|r| r.ok())).collect();
+        let accs = par_for(work.len(), 1, || Acc { samples: Samples::new(1), ..Default::default() }, |acc, w| {
+            let (ci, ii) = work[w];
+            let Some(sc) = &scanners[ci] else { return };
+            let input = &ins[ii];
+            let alpha = alphabet(input, cfgs[ci].modes.len());
+            // all histories of length 0..=depth
+            let mut idx = vec![0usize; 0];
+            loop {
+                let hist: Vec<HOp> = idx.iter().map(|&k| alpha[k]).collect();
+                acc.scans += 1;
+                let mut n_tok = 0;
+                if let Some(d) = safety_history(sc, input, &hist, &mut n_tok) {
+                    acc.viol.add("", || Violation {
+                        key: String::new(),
+                        summary: format!("{} on {:?} after [{}]: {d}", cfgs[ci].show(), input, hist.iter().map(|o| o.show()).collect::<Vec<_>>().join(", ")),
+                        replay: json!({"configuration": cfgs[ci].to_json(), "input": input, "history": hist.iter().map(|o| o.show()).collect::<Vec<_>>(), "then": "next() until None", "broken_invariant": d}),
+                    });
+                    return;
+                }
+                if n_tok > 0 && hist.iter().any(|o| matches!(o, HOp::SetOffset(_))) {
+                    acc.nontrivial += 1;
+                }
+                acc.safety_tokens += n_tok;
+                // next history (shortest first is not needed here: odometer over lengths)
+                let mut k = idx.len();
+                loop {
+                    if k == 0 {
+                        idx = vec![0; idx.len() + 1];
+                        break;
+                    }
+                    k -= 1;
+                    idx[k] += 1;
+                    if idx[k] < alpha.len() {
+                        break;
+                    }
+                    idx[k] = 0;
+                }
+                if idx.len() > depth {
+                    break;
+                }
+            }
+            if acc.samples.items.is_empty() {
+                acc.samples.push(|| json!({"family": "history-safety", "cfg": cfgs[ci].show(), "input": input, "ops": alpha.len(), "depth": depth}));
+            }
+        });
+        for a in accs {
+            merge(&mut total, a);
+        }
+        families.push(json!({"family": format!("history safety: every history of <= {depth} operations from next / peek_n(2) / advance_to(peeked end) / set_offset(every boundary, |x|+1) / set_mode(k), then next() until None; invariants per segment since the last reset"), "configurations": cfgs.len(), "inputs": "{a,b,é,\\n,1}^<=3", "exhaustive": true}));
+    }
+
     let n_disagreeing = total.viol.total();
     std::mem::take(&mut total.viol).flush(&mut run);
     let mut cov = Map::new();
